@@ -192,6 +192,78 @@ def real_records(with_c=False, grouped=False):
     return recs, D
 
 
+def nested_records():
+    """records that HOLD records (one and two levels deep, in `record` and `record[]` fields) for the typed matchers, with
+    their environments: (real records, environments).  The outer fields carry values the usual constants do not match, so
+    a match has to come from the depth it sits at."""
+    from flow.record import RecordDescriptor
+
+    Deep = RecordDescriptor("t/deep", [("string", "dq"), ("varint", "dk"), ("boolean", "db")])
+    Inner = RecordDescriptor("t/inner", [("string", "iq"), ("varint", "ik"), ("record", "deeper")])
+    Outer = RecordDescriptor("t/outer", [("string", "s"), ("varint", "n"), ("record", "sub"), ("record[]", "subs")])
+
+    def env(fields, vals, subs):
+        e = {n: v for (t, n), v in zip(fields, vals)}
+        e["$types"] = {"t": "meta", "v": {n: t for t, n in fields}}
+        e["$order"] = {"t": "meta", "v": [n for t, n in fields]}
+        e["$sub"] = {"t": "meta", "v": subs}
+        return e
+
+    REC = {"t": "rec", "v": []}
+    fd, fi, fo = Deep.get_field_tuples(), Inner.get_field_tuples(), Outer.get_field_tuples()
+    shapes = [
+        # (outer s, outer n, inner (iq, ik, deep (dq, dk, db)) | None, [elements of subs as deep tuples])
+        ("q", 9, ("x", 5, ("zz", 50, True)), [("b", 1, False)]),
+        ("q", 9, ("a", 1, None), []),
+        ("q", 9, None, [("a", 100, True), ("zz", 0, False)]),
+        ("a", 1, ("x", 5, ("y", 6, False)), []),
+        ("q", 9, None, []),
+    ]
+    recs, envs_ = [], []
+    for s_, n_, inner, subs in shapes:
+        def deep(tu):
+            return (Deep(tu[0], tu[1], tu[2], _generated=None), env(fd, [S(tu[0]), I(tu[1]), B(tu[2])], []))
+        inner_rec, inner_env = None, None
+        if inner is not None:
+            d = deep(inner[2]) if inner[2] is not None else (None, None)
+            inner_rec = Inner(inner[0], inner[1], d[0], _generated=None)
+            inner_env = env(fi, [S(inner[0]), I(inner[1]), REC], [d[1]] if d[1] is not None else [])
+        sub_pairs = [deep(tu) for tu in subs]
+        recs.append(Outer(s_, n_, inner_rec, [p[0] for p in sub_pairs], _generated=None))
+        envs_.append(env(fo, [S(s_), I(n_), REC, REC], ([inner_env] if inner_env is not None else []) + [p[1] for p in sub_pairs]))
+    return recs, envs_
+
+
+def wrapper_named_records():
+    """record types with a FIELD literally called `record` (the name of the slot a wrapped record keeps its record in), holding
+    a record that has fields the outer one lacks and lacks fields the outer one has -> (real records, environments)"""
+    from flow.record import RecordDescriptor
+
+    Inner = RecordDescriptor("t/held", [("string", "m"), ("string", "w")])
+    Outer = RecordDescriptor("t/holder", [("string", "s"), ("string", "w"), ("record", "record")])
+    fo = Outer.get_field_tuples()
+    REC = {"t": "rec", "v": []}
+    recs, envs_ = [], []
+    for s_, w_, inner in (("a", "a", ("a", "zz")), ("Ab", "b", None), ("a", "a", ("b", "a")), ("zz", "zz", ("a", "a"))):
+        recs.append(Outer(s_, w_, Inner(*inner, _generated=None) if inner else None, _generated=None))
+        envs_.append({"s": S(s_), "w": S(w_), "record": REC if inner else NN, "$types": {"t": "meta", "v": {n: t for t, n in fo}}, "$order": {"t": "meta", "v": [n for t, n in fo]}})
+    return recs, envs_
+
+
+def wrapper_named_exprs():
+    out = []
+    for fn in ("field_equals", "field_contains", "field_regex"):
+        for fl in (["m"], ["s"], ["w"], ["m", "s"], ["w", "m"], ["s", "m2"], ["m", "m2"]):
+            for ss in (["a"], ["b"], ["zz"], ["Ab", "a"]):
+                if fn == "field_regex" and len(ss) > 1:
+                    continue
+                out.append((HELPER(fn, fl, ss), {"group": "helper_on_record_named_field", "fn": fn, "fields": ",".join(fl)}))
+    for o in ("Eq", "NotEq", "In"):
+        for f in ("m", "s", "w"):
+            out.append((CMP(o, F(f), C(S("a"))), {"group": "cmp_on_record_named_field", "op": o, "field": f}))
+    return out
+
+
 def engine_eval(cls, source, recs, cache=None):
     out = []
     try:
@@ -339,7 +411,13 @@ def c07_exprs(rnd, budget):
             [CMP(o, F("l"), mk(*es)) for o in ("Eq", "NotEq") for es in elems for mk in (LST, TUP)] + \
             [CMP(o, mk(*es), LST(mk1(*es), C(I(1)))) for o in ("In", "NotIn") for es in elems[:3] for mk in (LST, TUP) for mk1 in (LST, TUP)] + \
             [CMP("Eq", BIN("Add", mk(*es), mk(*es)), mk2(*(es + es))) for es in elems[:3] for mk in (LST, TUP) for mk2 in (LST, TUP)]
-    groups = {"kinds": kinds, "typed": typed, "ip_path": iph, "cmp": cmps, "bin": [CMP("Eq", b, C(I(2))) for b in bins] + bins, "call": calls, "chain": chains, "gen": gens, "l2cmp": l2, "neg": negs, "bool": bools, "not": nots, "helper": helpers, "gen2": gen2, "unsupported": unsup, "gen_named": gen_named, "typed_chain": tchains, "gen2x": gen2x}
+    # calls whose arguments are literals that are EQUAL but of different types (1 / True, 0 / False): each call has its own result
+    st = lambda v: CALL("str", C(v))
+    call_literals = [CMP(o, st(a), st(b)) for o in ("Eq", "NotEq") for a, b in ((I(1), B(True)), (B(True), I(1)), (I(0), B(False)), (B(False), I(0)), (I(1), I(1)), (B(True), B(True)))] + \
+                    [BOOL(bo, CMP("Eq", st(a), C(S(x))), CMP("Eq", st(b), C(S(y)))) for bo in ("And", "Or")
+                     for a, x, b, y in ((I(1), "1", B(True), "True"), (B(True), "True", I(1), "1"), (I(0), "0", B(False), "False"), (B(False), "0", I(0), "False"), (B(True), "1", I(1), "True"))] + \
+                    [CMP("In", st(B(True)), LST(st(I(1)), C(S("x")))), CMP("In", st(I(0)), TUP(st(B(False)))), CMP("Eq", LST(st(I(1)), st(B(True))), LST(C(S("1")), C(S("True"))))]
+    groups = {"call_literals": call_literals, "kinds": kinds, "typed": typed, "ip_path": iph, "cmp": cmps, "bin": [CMP("Eq", b, C(I(2))) for b in bins] + bins, "call": calls, "chain": chains, "gen": gens, "l2cmp": l2, "neg": negs, "bool": bools, "not": nots, "helper": helpers, "gen2": gen2, "unsupported": unsup, "gen_named": gen_named, "typed_chain": tchains, "gen2x": gen2x}
     total = sum(len(g) for g in groups.values())
     out = []
     # groups of moderate size are ALWAYS taken completely (a sample of them once lost the only expressions that tell a
